@@ -21,6 +21,12 @@ def run(ctx):
     cfg = tlc.cfg_with("CadenceInject_Gen.cfg", {}, ctx.outdir)
     if ctx.quick():
         res = tlc.run(MODULE, cfg, ctx.outdir, workers=4, simulate=90, depth=60, seed=ctx.seed)
+        # and, exhaustively, every pair of subsets (incl. direct frame injection) over the gapped cadence with a smeared path
+        res2 = tlc.run(MODULE, tlc.cfg_with("CadenceInject_Gen.cfg", {"Mix": "TRUE"}, ctx.outdir), ctx.outdir, workers=1)
+        ctx.add_tlc(res2, "CadenceInject_Gen Mix (exhaustive)", "R-generate")
+        if not res2.emitted:
+            raise RuntimeError("CadenceInject_Gen Mix produced nothing")
+        res.emitted.extend(res2.emitted)
     else:
         res = tlc.run(MODULE, cfg, ctx.outdir, workers=1)
     ctx.add_tlc(res, "CadenceInject_Gen", "R-generate")
